@@ -8,6 +8,9 @@ R: every emitted (value, octets) vector is replayed: tnetstrings.dump(value) = o
    = (equal value of exactly the same types, tail); for the payload types the streaming tnet_machine supports (bytes,
    text, integer, null) the machine is fed the octets whole, byte-at-a-time and at every two-way split, followed by
    every tail: it must extract the same payload and have consumed exactly Len(Dump(v)) symbols.
+   The socket-level reader built on it (tnet_from, scripted receive function) gets streams of two messages -- back to back, or
+   separated and followed by a newline it is told to ignore, payloads containing newlines included -- whole, bytewise and at
+   every two-way split: it must yield exactly the two payloads.
 """
 import json
 import os
@@ -106,6 +109,41 @@ def _replay(job):
     return out, nstream
 
 
+def _reader(job):
+    """the socket-level reader tnet_from over a scripted receive function: a stream of two messages, optionally separated
+    (and followed) by a symbol the reader is told to ignore, under every two-way split, bytewise and whole"""
+    import cpppo  # noqa
+    from cpppo.server import tnet, network
+    (v1, v2), sep, ignore = job
+    m1, m2 = bytes(bytearray(v1["b"])), bytes(bytearray(v2["b"]))
+    want = [to_py(v1["v"]), to_py(v2["v"])]
+    streamb = m1 + sep + m2 + sep
+    out, n = [], 0
+    chunkings = [[streamb], [streamb[i:i + 1] for i in range(len(streamb))]] + [[streamb[:k], streamb[k:]] for k in range(1, len(streamb))]
+    for ch in chunkings:
+        n += 1
+        script = list(ch) + [b""]
+
+        def recv(conn, maxlen=1024, timeout=None, closeprob=None):
+            return script.pop(0) if script else b""
+        saved = network.recv
+        network.recv = recv
+        got, exc = [], ""
+        try:
+            for m in tnet.tnet_from(None, ("reader", 1), timeout=None, ignore=ignore):
+                got.append(m)
+                if len(got) > 4:
+                    break
+        except Exception as e:
+            exc = type(e).__name__
+        finally:
+            network.recv = saved
+        if exc or len(got) != 2 or not all(same_typed(a, b) for a, b in zip(got, want)):
+            out.append("tnet_from(ignore=%r) on %r delivered as %r: yielded %r %s, the messages are %r" % (ignore, streamb, [len(c) for c in ch][:6], got, exc, want))
+            break
+    return out, n
+
+
 def main(ctx):
     ev = ctx.ev
     wd = core.workdir()
@@ -132,6 +170,23 @@ def main(ctx):
         ev.impl += ns
         for p in probs[:2]:
             ctx.violation("tnet_%s" % t, {"vector": v, "tails": tails[0], "problem": p}, what="tnetstring %s: %s" % (bytes(bytearray(v["b"])), p))
+    # the socket-level reader (tnet_from): pairs of streamable messages, with and without an ignored separator
+    import random
+    rng = random.Random(ctx.seed)
+    atoms = [v for v in vecs if v["v"]["t"] in ("bytes", "text", "int", "null")]
+    pairs = [(a, b) for a in atoms for b in atoms]
+    if ctx.quick:
+        nl = [p for p in pairs if any(10 in x["b"][2:] for x in p)]
+        pairs = nl + rng.sample(pairs, 120)
+    rjobs = []
+    for p in pairs:
+        rjobs += [(p, b"", None), (p, b"", b"\n"), (p, b"\n", b"\n")]
+    for (p, sep, ign), (probs, nr) in zip(rjobs, core.pmap(_reader, rjobs, chunksize=8)):
+        ev.case(key=("reader", json.dumps(p[0]["b"]), json.dumps(p[1]["b"]), len(sep), bool(ign)), nontrivial=bool(sep) or any(10 in x["b"] for x in p))
+        ev.impl += nr
+        for q in probs[:1]:
+            ctx.violation("tnet_reader", {"reader": True, "messages": [p[0]["b"], p[1]["b"]], "sep": list(sep), "ignore": list(ign or b""), "problem": q}, what=q)
+    ev.extra["reader_streams"] = len(rjobs)
     ev.sample({"value": vecs[len(vecs) // 2]["v"], "octets": bytes(bytearray(vecs[len(vecs) // 2]["b"])).decode("latin-1")})
     ev.sample({"value": vecs[-1]["v"], "octets": bytes(bytearray(vecs[-1]["b"])).decode("latin-1")})
     ev.exhaustive = True
